@@ -42,6 +42,74 @@ Proof.
     + intros [H1 H2]. split; [split; auto; intros ->; apply H2; auto | auto].
 Qed.
 
+
+Lemma dels_tblidx ws : forall s, Forall is_del ws ->
+  forall x, In x (tblidx (apply_all ws s)) <-> In x (tblidx s) /\ ~ In (DelTblIdx x) ws.
+Proof.
+  induction ws as [|w ws IH]; intros s H x.
+  - cbn. tauto.
+  - inversion H as [|? ? Hw Hws]; subst. rewrite apply_all_cons, (IH _ Hws), In_tblidx_apply. cbn [In].
+    destruct w; cbn in Hw; try contradiction;
+      try (split; [intros [H1 H2]; split; auto; intros [H3 | H3]; [discriminate | auto]
+                  | intros [H1 H2]; split; auto]).
+    split.
+    + intros [[H1 H2] H3]. split; auto. intros [H4 | H4]; [inversion H4; subst; auto | auto].
+    + intros [H1 H2]. split; [split; auto; intros ->; apply H2; auto | auto].
+Qed.
+
+Lemma dels_prof ws : forall s, Forall is_del ws ->
+  forall x, In x (prof (apply_all ws s)) <-> In x (prof s) /\ ~ In (DelProf x) ws.
+Proof.
+  induction ws as [|w ws IH]; intros s H x.
+  - cbn. tauto.
+  - inversion H as [|? ? Hw Hws]; subst. rewrite apply_all_cons, (IH _ Hws), In_prof_apply. cbn [In].
+    destruct w; cbn in Hw; try contradiction;
+      try (split; [intros [H1 H2]; split; auto; intros [H3 | H3]; [discriminate | auto]
+                  | intros [H1 H2]; split; auto]).
+    split.
+    + intros [[H1 H2] H3]. split; auto. intros [H4 | H4]; [inversion H4; subst; auto | auto].
+    + intros [H1 H2]. split; [split; auto; intros ->; apply H2; auto | auto].
+Qed.
+
+Lemma dels_blocks ws : forall s, Forall is_del ws ->
+  forall x, In x (blocks (apply_all ws s)) <-> In x (blocks s) /\ ~ In (DelBlock x) ws.
+Proof.
+  induction ws as [|w ws IH]; intros s H x.
+  - cbn. tauto.
+  - inversion H as [|? ? Hw Hws]; subst. rewrite apply_all_cons, (IH _ Hws), In_blocks_apply. cbn [In].
+    destruct w; cbn in Hw; try contradiction;
+      try (split; [intros [H1 H2]; split; auto; intros [H3 | H3]; [discriminate | auto]
+                  | intros [H1 H2]; split; auto]).
+    split.
+    + intros [[H1 H2] H3]. split; auto. intros [H4 | H4]; [inversion H4; subst; auto | auto].
+    + intros [H1 H2]. split; [split; auto; intros ->; apply H2; auto | auto].
+Qed.
+
+Lemma dels_blkidx ws : forall s, Forall is_del ws ->
+  forall x, In x (blkidx (apply_all ws s)) <-> In x (blkidx s) /\ ~ In (DelBlkIdx x) ws.
+Proof.
+  induction ws as [|w ws IH]; intros s H x.
+  - cbn. tauto.
+  - inversion H as [|? ? Hw Hws]; subst. rewrite apply_all_cons, (IH _ Hws), In_blkidx_apply. cbn [In].
+    destruct w; cbn in Hw; try contradiction;
+      try (split; [intros [H1 H2]; split; auto; intros [H3 | H3]; [discriminate | auto]
+                  | intros [H1 H2]; split; auto]).
+    split.
+    + intros [[H1 H2] H3]. split; auto. intros [H4 | H4]; [inversion H4; subst; auto | auto].
+    + intros [H1 H2]. split; [split; auto; intros ->; apply H2; auto | auto].
+Qed.
+
+Lemma memb_ext {A} (e : A -> A -> bool) (He : forall a b, e a b = true <-> a = b) x l1 l2 :
+  (forall y, In y l1 <-> In y l2) -> memb e x l1 = memb e x l2.
+Proof.
+  intros H. destruct (memb e x l2) eqn:E.
+  - apply (memb_In e He). apply H. apply (memb_In e He). exact E.
+  - apply (memb_false e He). intros Hin. apply H in Hin. apply (memb_false e He) in E. contradiction.
+Qed.
+
+Lemma firstn_incl {A} n (l : list A) x : In x (firstn n l) -> In x l.
+Proof. intros H. rewrite <- (firstn_skipn n l). apply in_or_app; auto. Qed.
+
 (* ------------------------------------------------------------------ reachability *)
 
 Lemma reachable_target s r c f : In (r, (c, f)) (refs s) -> In c (reachable s).
@@ -310,3 +378,437 @@ Section Prune.
   Proof. apply safe_seq_prefix; auto. apply prune_safe. Qed.
 
 End Prune.
+
+(* ------------------------------------------------------------------ membership in the sweep *)
+
+Section PruneIn.
+  Variable sk : skels.
+  Hypothesis Hprune : prune_skel_ok (sk_prune sk) = true.
+  Hypothesis Htables : prune_tables_skel_ok (sk_prune_tables sk) = true.
+  Hypothesis Horder : prune_commit_order_ok (sk_prune_commit_order sk) = true.
+
+  Ltac in_phaseT H :=
+    unfold phaseT in H; apply in_flat_map in H;
+    let t := fresh "t" in let Ht := fresh "Ht" in let Hw := fresh "Hw" in let E := fresh "E" in
+    destruct H as [t [Ht Hw]];
+    destruct (prune_table_writes_cases sk Htables t) as [E | E]; rewrite E in Hw; cbn in Hw;
+    destruct Hw as [Hw | [Hw | [Hw | []]]]; try discriminate; try (inversion Hw; subst; clear Hw).
+  Ltac in_phaseM H :=
+    apply in_map_iff in H;
+    let b := fresh "b" in let Hw := fresh "Hw" in let Hb := fresh "Hb" in
+    destruct H as [b [Hw Hb]]; try discriminate; try (inversion Hw; subst; clear Hw).
+
+  Lemma prune_split s w : commits_to_remove s <> [] ->
+    (In w (prune_writes sk s) <-> In w (phaseT sk s) \/ In w (phaseB s) \/ In w (phaseI s) \/ In w (phaseC sk s)).
+  Proof.
+    intros NE. destruct (prune_writes_cases sk Hprune s) as [[_ E] | [_ [E | E]]]; [contradiction | |];
+      rewrite E, !in_app_iff; tauto.
+  Qed.
+
+  Lemma prune_nil s : commits_to_remove s = [] -> prune_writes sk s = [].
+  Proof. intros E. unfold prune_writes. rewrite E. reflexivity. Qed.
+
+  Lemma In_phaseC s x : WF s -> (In (DelCommit x) (phaseC sk s) <-> In x (commits_to_remove s)).
+  Proof.
+    intros Hwf. unfold phaseC. rewrite (commit_order_eq sk Horder).
+    destruct (children_first_spec (commits_to_remove s) (to_remove_NoDup s Hwf)) as (Hin & _).
+    rewrite in_map_iff. split.
+    - intros [c [E Hc]]. inversion E; subst. apply Hin; auto.
+    - intros H. exists x. split; auto. apply Hin; auto.
+  Qed.
+
+  Lemma In_prune_commit s x : WF s -> (In (DelCommit x) (prune_writes sk s) <-> In x (commits_to_remove s)).
+  Proof.
+    intros Hwf. destruct (commits_to_remove s) as [|c0 l0] eqn:E.
+    - rewrite (prune_nil s E). cbn. tauto.
+    - assert (NE : commits_to_remove s <> []) by (rewrite E; discriminate).
+      rewrite (prune_split s _ NE), <- E, <- (In_phaseC s x Hwf). split; [|tauto].
+      intros [H | [H | [H | H]]]; auto; [in_phaseT H | in_phaseM H | in_phaseM H].
+  Qed.
+
+  Lemma In_prune_table s t :
+    In (DelTable t) (prune_writes sk s) <-> commits_to_remove s <> [] /\ In t (tables_to_remove s).
+  Proof.
+    destruct (commits_to_remove s) as [|c0 l0] eqn:E.
+    - rewrite (prune_nil s E). cbn. split; [intros [] | intros [H _]; congruence].
+    - assert (NE : commits_to_remove s <> []) by (rewrite E; discriminate).
+      rewrite (prune_split s _ NE), <- E. split.
+      + intros [H | [H | [H | H]]]; [in_phaseT H; auto | in_phaseM H | in_phaseM H | in_phaseM H].
+      + intros [_ H]. left. apply phaseT_has_table; auto.
+  Qed.
+
+  Lemma In_prune_tblidx s t :
+    In (DelTblIdx t) (prune_writes sk s) <-> commits_to_remove s <> [] /\ In t (tables_to_remove s).
+  Proof.
+    destruct (commits_to_remove s) as [|c0 l0] eqn:E.
+    - rewrite (prune_nil s E). cbn. split; [intros [] | intros [H _]; congruence].
+    - assert (NE : commits_to_remove s <> []) by (rewrite E; discriminate).
+      rewrite (prune_split s _ NE), <- E. split.
+      + intros [H | [H | [H | H]]]; [in_phaseT H; auto | in_phaseM H | in_phaseM H | in_phaseM H].
+      + intros [_ H]. left. unfold phaseT. apply in_flat_map. exists t. split; auto.
+        destruct (prune_table_writes_cases sk Htables t) as [E' | E']; rewrite E'; cbn; auto.
+  Qed.
+
+  Lemma In_prune_prof s t :
+    In (DelProf t) (prune_writes sk s) <-> commits_to_remove s <> [] /\ In t (tables_to_remove s).
+  Proof.
+    destruct (commits_to_remove s) as [|c0 l0] eqn:E.
+    - rewrite (prune_nil s E). cbn. split; [intros [] | intros [H _]; congruence].
+    - assert (NE : commits_to_remove s <> []) by (rewrite E; discriminate).
+      rewrite (prune_split s _ NE), <- E. split.
+      + intros [H | [H | [H | H]]]; [in_phaseT H; auto | in_phaseM H | in_phaseM H | in_phaseM H].
+      + intros [_ H]. left. unfold phaseT. apply in_flat_map. exists t. split; auto.
+        destruct (prune_table_writes_cases sk Htables t) as [E' | E']; rewrite E'; cbn; auto.
+  Qed.
+
+  Lemma In_prune_block s b :
+    In (DelBlock b) (prune_writes sk s) <-> commits_to_remove s <> [] /\ In b (blocks_to_remove s).
+  Proof.
+    destruct (commits_to_remove s) as [|c0 l0] eqn:E.
+    - rewrite (prune_nil s E). cbn. split; [intros [] | intros [H _]; congruence].
+    - assert (NE : commits_to_remove s <> []) by (rewrite E; discriminate).
+      rewrite (prune_split s _ NE), <- E. split.
+      + intros [H | [H | [H | H]]]; [in_phaseT H | in_phaseM H; auto | in_phaseM H | in_phaseM H].
+      + intros [_ H]. right; left. apply in_map; auto.
+  Qed.
+
+  Lemma In_prune_blkidx s b :
+    In (DelBlkIdx b) (prune_writes sk s) <-> commits_to_remove s <> [] /\ In b (blkidx_to_remove s).
+  Proof.
+    destruct (commits_to_remove s) as [|c0 l0] eqn:E.
+    - rewrite (prune_nil s E). cbn. split; [intros [] | intros [H _]; congruence].
+    - assert (NE : commits_to_remove s <> []) by (rewrite E; discriminate).
+      rewrite (prune_split s _ NE), <- E. split.
+      + intros [H | [H | [H | H]]]; [in_phaseT H | in_phaseM H | in_phaseM H; auto | in_phaseM H].
+      + intros [_ H]. right; right; left. apply in_map; auto.
+  Qed.
+
+  (** the sweep ends with the commit deletions *)
+  Lemma prune_commits_last s : exists W, prune_writes sk s = W ++ phaseC sk s /\ forall c, ~ In (DelCommit c) W.
+  Proof.
+    destruct (prune_writes_cases sk Hprune s) as [[E E'] | [_ [E | E]]].
+    - exists []. split; [|intros c []]. rewrite E. unfold phaseC. rewrite (commit_order_eq sk Horder), E'.
+      reflexivity.
+    - exists (phaseT sk s ++ phaseB s ++ phaseI s). split; [rewrite E, <- !app_assoc; reflexivity|].
+      intros c H. rewrite !in_app_iff in H.
+      destruct H as [H | [H | H]]; [in_phaseT H | in_phaseM H | in_phaseM H].
+    - exists (phaseT sk s ++ phaseI s ++ phaseB s). split; [rewrite E, <- !app_assoc; reflexivity|].
+      intros c H. rewrite !in_app_iff in H.
+      destruct H as [H | [H | H]]; [in_phaseT H | in_phaseM H | in_phaseM H].
+  Qed.
+
+  (* ---------------------------------------------------------------- re-run *)
+
+  Variable s : state.
+  Hypothesis Hwf : WF s.
+  Variable n : nat.
+
+  Let ws1 := prune_writes sk s.
+  Let pre := firstn n ws1.
+  Let cs := apply_all pre s.
+  Let ws2 := prune_writes sk cs.
+
+  Lemma pre_is_del : Forall is_del pre.
+  Proof. apply Forall_firstn. apply prune_is_del; auto. Qed.
+
+  Lemma pre_incl w : In w pre -> In w ws1.
+  Proof. apply firstn_incl. Qed.
+
+  Lemma cs_refs : refs cs = refs s.
+  Proof. apply dels_refs. apply pre_is_del. Qed.
+
+  Lemma cs_wf : WF cs.
+  Proof. apply apply_all_WF; auto. Qed.
+
+  Lemma cs_commits x : In x (commits cs) <-> In x (commits s) /\ ~ In (DelCommit x) pre.
+  Proof. apply dels_commits. apply pre_is_del. Qed.
+
+  Lemma pre_commit_removable x : In (DelCommit x) pre -> In x (commits_to_remove s).
+  Proof. intros H. apply pre_incl in H. apply (In_prune_commit s x Hwf). exact H. Qed.
+
+  Lemma cs_to_remove x : In x (commits_to_remove cs) <-> In x (commits_to_remove s) /\ ~ In (DelCommit x) pre.
+  Proof.
+    rewrite !In_to_remove, (reachable_same_refs s cs cs_refs), cs_commits. tauto.
+  Qed.
+
+  Lemma cs_surviving x : In x (surviving cs) <-> In x (surviving s).
+  Proof.
+    rewrite !In_surviving, (reachable_same_refs s cs cs_refs), cs_commits. split; [tauto|].
+    intros [H1 H2]. split; auto. split; auto. intros H. apply pre_commit_removable in H.
+    apply In_to_remove in H. tauto.
+  Qed.
+
+  Lemma cs_kept_table t : kept_table cs t = kept_table s t.
+  Proof.
+    unfold kept_table. apply (memb_ext table_eqb table_eqb_eq). intros y. rewrite !in_map_iff.
+    split; intros [c [E H]]; exists c; split; auto; apply cs_surviving; auto.
+  Qed.
+
+  Lemma cs_tables t : In t (tables cs) <-> In t (tables s) /\ ~ In (DelTable t) pre.
+  Proof. apply dels_tables. apply pre_is_del. Qed.
+
+  Lemma cs_blocks b : In b (blocks cs) <-> In b (blocks s) /\ ~ In (DelBlock b) pre.
+  Proof. apply dels_blocks. apply pre_is_del. Qed.
+  Lemma cs_blkidx b : In b (blkidx cs) <-> In b (blkidx s) /\ ~ In (DelBlkIdx b) pre.
+  Proof. apply dels_blkidx. apply pre_is_del. Qed.
+  Lemma cs_tblidx t : In t (tblidx cs) <-> In t (tblidx s) /\ ~ In (DelTblIdx t) pre.
+  Proof. apply dels_tblidx. apply pre_is_del. Qed.
+  Lemma cs_prof t : In t (prof cs) <-> In t (prof s) /\ ~ In (DelProf t) pre.
+  Proof. apply dels_prof. apply pre_is_del. Qed.
+
+  Lemma In_tables_to_remove s' t : In t (tables_to_remove s') <-> In t (tables s') /\ kept_table s' t = false.
+  Proof. unfold tables_to_remove. rewrite filter_In, negb_true_iff. tauto. Qed.
+
+  Lemma In_kept_tables s' t : In t (kept_tables s') <-> In t (tables s') /\ kept_table s' t = true.
+  Proof. unfold kept_tables. rewrite filter_In. tauto. Qed.
+
+  Lemma pre_table_removable t : In (DelTable t) pre -> kept_table s t = false.
+  Proof.
+    intros H. apply pre_incl in H. apply In_prune_table in H. destruct H as [_ H].
+    apply In_tables_to_remove in H. tauto.
+  Qed.
+
+  Lemma cs_kept_tables t : In t (kept_tables cs) <-> In t (kept_tables s).
+  Proof.
+    rewrite !In_kept_tables, cs_kept_table, cs_tables. split; [tauto|].
+    intros [H1 H2]. split; auto. split; auto. intros H. apply pre_table_removable in H. congruence.
+  Qed.
+
+  Lemma cs_ne_s : commits_to_remove cs <> [] -> commits_to_remove s <> [].
+  Proof.
+    intros H E. destruct (commits_to_remove cs) as [|c l] eqn:E'; [congruence|].
+    assert (Hc : In c (commits_to_remove cs)) by (rewrite E'; left; auto).
+    apply cs_to_remove in Hc. destruct Hc as [Hc _]. rewrite E in Hc. exact Hc.
+  Qed.
+
+  (** commits are deleted last: either a removable commit is still there, so the re-run does
+      not take the early return, or the interrupted run had finished *)
+  Lemma rerun_dichotomy : commits_to_remove cs <> [] \/ (forall w, In w ws1 -> In w pre).
+  Proof.
+    destruct (le_lt_dec (List.length ws1) n) as [Hn | Hn].
+    { right. intros w Hw. unfold pre. rewrite firstn_all2; auto. }
+    destruct (prune_commits_last s) as [W [EW HW]]. fold ws1 in EW.
+    destruct (children_first_spec (commits_to_remove s) (to_remove_NoDup s Hwf)) as (Hin & Hnd & _).
+    unfold phaseC in EW. rewrite (commit_order_eq sk Horder) in EW.
+    destruct (children_first (commits_to_remove s)) as [|z l' _] eqn:Ecf using rev_ind.
+    - (* nothing to remove: the write list is W = [] ... then ws1 has no commit; but n < length *)
+      cbn in EW. rewrite app_nil_r in EW.
+      destruct (commits_to_remove s) as [|c l] eqn:E.
+      + unfold ws1 in Hn. rewrite (prune_nil s E) in Hn. cbn in Hn. lia.
+      + exfalso. assert (Hc : In c (c :: l)) by (left; auto). apply Hin in Hc. exact Hc.
+    - left.
+      (* z is the last commit deleted; it is not in the prefix *)
+      assert (Hz : In z (commits_to_remove s)) by (apply Hin; apply in_or_app; right; left; auto).
+      assert (Hzl : ~ In z l').
+      { intros H. apply (NoDup_remove_2 l' [] z Hnd). rewrite app_nil_r. exact H. }
+      rewrite map_app in EW. cbn [map] in EW. rewrite app_assoc in EW.
+      assert (Hzpre : ~ In (DelCommit z) pre).
+      { unfold pre. rewrite EW. rewrite firstn_app_le.
+        - intros H. apply firstn_incl in H. apply in_app_iff in H. destruct H as [H | H]; [eapply HW; eauto|].
+          apply in_map_iff in H. destruct H as [c [E Hc]]. inversion E; subst. contradiction.
+        - rewrite EW, app_length in Hn. cbn in Hn. lia. }
+      intros E. assert (Hc : In z (commits_to_remove cs)) by (apply cs_to_remove; auto).
+      rewrite E in Hc. exact Hc.
+  Qed.
+
+  Let f1 := apply_all ws1 s.
+  Let f2 := apply_all ws2 cs.
+
+  Lemma ws1_is_del : Forall is_del ws1.
+  Proof. apply prune_is_del; auto. Qed.
+  Lemma ws2_is_del : Forall is_del ws2.
+  Proof. apply prune_is_del; auto. Qed.
+
+  (** the re-run ends exactly where the uninterrupted sweep ends, as far as commits, tables,
+      blocks and block indices are concerned *)
+  Theorem prune_rerun_commits x : In x (commits f2) <-> In x (commits f1).
+  Proof.
+    unfold f1, f2. rewrite (dels_commits ws2 cs ws2_is_del), (dels_commits ws1 s ws1_is_del).
+    unfold ws2, ws1. rewrite (In_prune_commit cs x cs_wf), (In_prune_commit s x Hwf), cs_to_remove, cs_commits.
+    split.
+    - intros [[H1 H2] H3]. split; auto.
+    - intros [H1 H2]. split; [split; auto; intros H; apply H2; apply pre_commit_removable; auto | tauto].
+  Qed.
+
+  Theorem prune_rerun_tables t : In t (tables f2) <-> In t (tables f1).
+  Proof.
+    unfold f1, f2. rewrite (dels_tables ws2 cs ws2_is_del), (dels_tables ws1 s ws1_is_del).
+    unfold ws2. rewrite (In_prune_table cs t), cs_tables.
+    split.
+    - intros [[H1 H2] H3]. split; auto. intros H. pose proof H as H'. unfold ws1 in H'.
+      apply In_prune_table in H'. destruct H' as [NE Ht].
+      destruct rerun_dichotomy as [D | D]; [|apply H2; apply D; exact H].
+      apply H3. split; auto. apply In_tables_to_remove. rewrite cs_kept_table, cs_tables.
+      apply In_tables_to_remove in Ht. tauto.
+    - intros [H1 H2]. split; [split; auto; intros H; apply H2; apply pre_incl; auto|].
+      intros [NE Ht]. apply H2. unfold ws1. apply In_prune_table. split; [apply cs_ne_s; auto|].
+      apply In_tables_to_remove in Ht. rewrite cs_kept_table, cs_tables in Ht.
+      apply In_tables_to_remove. tauto.
+  Qed.
+
+  Lemma In_blocks_to_remove s' b :
+    In b (blocks_to_remove s') <-> In b (blocks s') /\ ~ In b (flat_map t_blocks (kept_tables s')).
+  Proof.
+    unfold blocks_to_remove. rewrite filter_In, negb_true_iff, (memb_false N.eqb N.eqb_eq). tauto.
+  Qed.
+  Lemma In_blkidx_to_remove s' b :
+    In b (blkidx_to_remove s') <-> In b (blkidx s') /\ ~ In b (flat_map t_blkidx (kept_tables s')).
+  Proof.
+    unfold blkidx_to_remove. rewrite filter_In, negb_true_iff, (memb_false N.eqb N.eqb_eq). tauto.
+  Qed.
+
+  Lemma cs_kept_blocks b : In b (flat_map t_blocks (kept_tables cs)) <-> In b (flat_map t_blocks (kept_tables s)).
+  Proof. rewrite !in_flat_map. split; intros [t [Ht Hb]]; exists t; split; auto; apply cs_kept_tables; auto. Qed.
+  Lemma cs_kept_blkidx b : In b (flat_map t_blkidx (kept_tables cs)) <-> In b (flat_map t_blkidx (kept_tables s)).
+  Proof. rewrite !in_flat_map. split; intros [t [Ht Hb]]; exists t; split; auto; apply cs_kept_tables; auto. Qed.
+
+  Theorem prune_rerun_blocks b : In b (blocks f2) <-> In b (blocks f1).
+  Proof.
+    unfold f1, f2. rewrite (dels_blocks ws2 cs ws2_is_del), (dels_blocks ws1 s ws1_is_del).
+    unfold ws2. rewrite (In_prune_block cs b), cs_blocks.
+    split.
+    - intros [[H1 H2] H3]. split; auto. intros H. pose proof H as H'. unfold ws1 in H'.
+      apply In_prune_block in H'. destruct H' as [NE Hb].
+      destruct rerun_dichotomy as [D | D]; [|apply H2; apply D; exact H].
+      apply H3. split; auto. apply In_blocks_to_remove. rewrite cs_kept_blocks.
+      rewrite cs_blocks. apply In_blocks_to_remove in Hb. tauto.
+    - intros [H1 H2]. split; [split; auto; intros H; apply H2; apply pre_incl; auto|].
+      intros [NE Hb]. apply H2. unfold ws1. apply In_prune_block. split; [apply cs_ne_s; auto|].
+      apply In_blocks_to_remove in Hb. rewrite cs_kept_blocks in Hb.
+      rewrite cs_blocks in Hb. apply In_blocks_to_remove. tauto.
+  Qed.
+
+  Theorem prune_rerun_blkidx b : In b (blkidx f2) <-> In b (blkidx f1).
+  Proof.
+    unfold f1, f2. rewrite (dels_blkidx ws2 cs ws2_is_del), (dels_blkidx ws1 s ws1_is_del).
+    unfold ws2. rewrite (In_prune_blkidx cs b), cs_blkidx.
+    split.
+    - intros [[H1 H2] H3]. split; auto. intros H. pose proof H as H'. unfold ws1 in H'.
+      apply In_prune_blkidx in H'. destruct H' as [NE Hb].
+      destruct rerun_dichotomy as [D | D]; [|apply H2; apply D; exact H].
+      apply H3. split; auto. apply In_blkidx_to_remove. rewrite cs_kept_blkidx.
+      rewrite cs_blkidx. apply In_blkidx_to_remove in Hb. tauto.
+    - intros [H1 H2]. split; [split; auto; intros H; apply H2; apply pre_incl; auto|].
+      intros [NE Hb]. apply H2. unfold ws1. apply In_prune_blkidx. split; [apply cs_ne_s; auto|].
+      apply In_blkidx_to_remove in Hb. rewrite cs_kept_blkidx in Hb.
+      rewrite cs_blkidx in Hb. apply In_blkidx_to_remove. tauto.
+  Qed.
+
+  (** table indices and profiles: nothing the uninterrupted sweep keeps is lost; the index and
+      profile of a table whose object was deleted right before the crash may stay behind as
+      garbage (pruneTables enumerates table keys only) *)
+  Theorem prune_rerun_tblidx t : In t (tblidx f1) -> In t (tblidx f2).
+  Proof.
+    unfold f1, f2. rewrite (dels_tblidx ws2 cs ws2_is_del), (dels_tblidx ws1 s ws1_is_del).
+    rewrite cs_tblidx.
+    intros [H1 H2]. split; [split; auto; intros H; apply H2; apply pre_incl; auto|].
+    unfold ws2. rewrite (In_prune_tblidx cs t). intros [NE Ht]. apply H2. unfold ws1.
+    apply In_prune_tblidx. split; [apply cs_ne_s; auto|].
+    apply In_tables_to_remove in Ht. rewrite cs_kept_table, cs_tables in Ht. apply In_tables_to_remove. tauto.
+  Qed.
+
+  Theorem prune_rerun_prof t : In t (prof f1) -> In t (prof f2).
+  Proof.
+    unfold f1, f2. rewrite (dels_prof ws2 cs ws2_is_del), (dels_prof ws1 s ws1_is_del).
+    rewrite cs_prof.
+    intros [H1 H2]. split; [split; auto; intros H; apply H2; apply pre_incl; auto|].
+    unfold ws2. rewrite (In_prune_prof cs t). intros [NE Ht]. apply H2. unfold ws1.
+    apply In_prune_prof. split; [apply cs_ne_s; auto|].
+    apply In_tables_to_remove in Ht. rewrite cs_kept_table, cs_tables in Ht. apply In_tables_to_remove. tauto.
+  Qed.
+
+  Theorem prune_rerun_refs : refs f2 = refs f1.
+  Proof.
+    unfold f1, f2. rewrite (dels_refs ws2 cs ws2_is_del), (dels_refs ws1 s ws1_is_del). apply cs_refs.
+  Qed.
+
+End PruneIn.
+
+(* ------------------------------------------------------------------ any commit deletion order *)
+
+(** Without the children-first order (the tree before b7554dd deleted commitsToRemove in key
+    = hash order) every prefix still keeps RefsResolve, TableUsable, HeadsFull and the closure
+    of everything reachable from a ref; only [Closed] for unreachable commits can break. *)
+Section PruneAnyOrder.
+  Variable sk : skels.
+  Hypothesis Hprune : prune_skel_ok (sk_prune sk) = true.
+  Hypothesis Htables : prune_tables_skel_ok (sk_prune_tables sk) = true.
+  Variable s : state.
+  Hypothesis Hinv : Inv s.
+  Hypothesis Hwf : WF s.
+
+  Lemma commit_order_incl x : In x (commit_order sk (commits_to_remove s)) -> In x (commits_to_remove s).
+  Proof.
+    unfold commit_order. destruct (is_name (sk_prune_commit_order sk) n_childrenFirst); auto.
+    destruct (children_first_spec (commits_to_remove s) (to_remove_NoDup s Hwf)) as (Hin & _).
+    apply Hin.
+  Qed.
+
+  Lemma del_commits_safe3 L : (forall x, In x L -> In x (commits_to_remove s)) ->
+    forall s', refs s' = refs s -> safe3_seq s' (map DelCommit L).
+  Proof.
+    induction L as [|c L IH]; intros HL s' Hrefs; [exact I|]. cbn [map]. split.
+    - cbn. rewrite Hrefs. intros r c' f Hin ->.
+      assert (Hc : In c (commits_to_remove s)) by (apply HL; left; auto).
+      apply In_to_remove in Hc. destruct Hc as [_ Hc]. apply Hc. eapply reachable_target; eauto.
+    - apply IH; [intros; apply HL; right; auto|]. rewrite apply_obj_refs; [exact Hrefs | exact I].
+  Qed.
+
+  Lemma prune_safe3_any : safe3_seq s (prune_writes sk s).
+  Proof.
+    assert (HT : safe_seq s (phaseT sk s)).
+    { apply (phaseT_safe sk Htables s Hinv); auto. intros t Ht. unfold tables_to_remove in Ht. apply filter_In in Ht.
+      destruct Ht as [_ Ht]. apply negb_true_iff in Ht. exact Ht. }
+    pose proof (phaseT_is_del sk Htables s) as DT. pose proof (phaseB_is_del s) as DB.
+    pose proof (phaseI_is_del s) as DI.
+    assert (HC : forall s', refs s' = refs s -> safe3_seq s' (phaseC sk s)).
+    { intros s' Hr. apply del_commits_safe3; auto. apply commit_order_incl. }
+    destruct (prune_writes_cases sk Hprune s) as [[E _] | [_ [E | E]]]; rewrite E; [exact I | |].
+    - apply safe3_seq_app; [apply safe_seq_safe3; auto|]. apply safe3_seq_app; [|apply safe3_seq_app].
+      + apply safe_seq_safe3. apply phaseB_safe. apply (after_phaseT_tables sk Htables); auto.
+      + rewrite <- apply_all_app. apply safe_seq_safe3. apply phaseI_safe. apply (after_phaseT_tables sk Htables); auto.
+        * apply Forall_app; auto.
+        * intros t Ht. apply in_or_app; auto.
+      + rewrite <- !apply_all_app. apply HC. apply dels_refs. repeat (apply Forall_app; split); auto.
+    - apply safe3_seq_app; [apply safe_seq_safe3; auto|]. apply safe3_seq_app; [|apply safe3_seq_app].
+      + apply safe_seq_safe3. apply phaseI_safe. apply (after_phaseT_tables sk Htables); auto.
+      + rewrite <- apply_all_app. apply safe_seq_safe3. apply phaseB_safe. apply (after_phaseT_tables sk Htables); auto.
+        * apply Forall_app; auto.
+        * intros t Ht. apply in_or_app; auto.
+      + rewrite <- !apply_all_app. apply HC. apply dels_refs. repeat (apply Forall_app; split); auto.
+  Qed.
+
+  Lemma prune_commit_in_any x : In (DelCommit x) (prune_writes sk s) -> In x (commits_to_remove s).
+  Proof.
+    intros H.
+    assert (HC : In (DelCommit x) (phaseC sk s) -> In x (commits_to_remove s)).
+    { intros Hc. unfold phaseC in Hc. apply in_map_iff in Hc. destruct Hc as [c [E Hc]].
+      inversion E; subst. apply commit_order_incl; auto. }
+    destruct (prune_writes_cases sk Hprune s) as [[E _] | [_ [E | E]]]; rewrite E in H; [destruct H | |];
+      rewrite !in_app_iff in H; destruct H as [H | [H | [H | H]]]; auto; exfalso.
+    - eapply phaseT_no_commit; eauto.
+    - eapply phaseB_no_commit; eauto.
+    - eapply phaseI_no_commit; eauto.
+    - eapply phaseT_no_commit; eauto.
+    - eapply phaseI_no_commit; eauto.
+    - eapply phaseB_no_commit; eauto.
+  Qed.
+
+  Lemma prune_is_del_any : Forall is_del (prune_writes sk s).
+  Proof. apply prune_is_del; auto. Qed.
+
+  Theorem prune_prefix_weak n :
+    Inv3 (crash n (prune_writes sk s) s) /\ ReachClosed (crash n (prune_writes sk s) s).
+  Proof.
+    split.
+    - apply safe3_seq_prefix; [apply Hinv | apply prune_safe3_any].
+    - unfold crash. set (pre := firstn n (prune_writes sk s)).
+      assert (Hd : Forall is_del pre) by (apply Forall_firstn; apply prune_is_del_any).
+      intros r c f Hin a Ha. rewrite (dels_refs pre s Hd) in Hin.
+      apply (dels_commits pre s Hd). split.
+      + eapply (Inv_ReachClosed s Hinv); eauto.
+      + intros Hdel. apply firstn_incl in Hdel. apply prune_commit_in_any in Hdel.
+        apply In_to_remove in Hdel. destruct Hdel as [_ Hdel]. apply Hdel. eapply reachable_ancestor; eauto.
+  Qed.
+
+End PruneAnyOrder.
